@@ -55,7 +55,7 @@ theorem stepDef_mono (d : List Ref) (c : Chg) (h : isDel c = false) (x : Ref) (h
 
 /-- rank of the kinds: references go to strictly lower rank -/
 def rk : Kind → Nat
-  | .aaa => 0 | .acl => 0 | .pool => 0 | .gp => 1 | .tg => 2 | .user => 2
+  | .aaa => 0 | .acl => 0 | .pool => 0 | .gp => 1 | .tg => 2 | .user => 2 | .certmap => 1
 
 structure J (A : List Ref) (a b : List Obj) (pend : List Ref) (st : St) : Prop where
   sa : st.a = a
@@ -876,6 +876,9 @@ theorem addAny_J (hw : WF A a b) : ∀ f, AddJ A a b f (addAny f)
     | user =>
       simp only [hk, hob] at he
       exact addAny_sec_J hw f ih pend st st' x o hj hob (by rw [hk]; decide) hf hp (by rw [hk]; exact he)
+    | certmap =>
+      simp only [hk, hob] at he
+      exact addAny_sec_J hw f ih pend st st' x o hj hob (by rw [hk]; decide) hf hp (by rw [hk]; exact he)
 
 /-! ## comparison -/
 
@@ -1046,6 +1049,9 @@ theorem diffAny_J (hw : WF A a b)
       simp only [hk] at he
       exact diffAny_sec_J hw hkk f ih pend st st' xa xb n oa ob hoa hob hkind hf hp hj (by rw [hk]; exact he)
     | user =>
+      simp only [hk] at he
+      exact diffAny_sec_J hw hkk f ih pend st st' xa xb n oa ob hoa hob hkind hf hp hj (by rw [hk]; exact he)
+    | certmap =>
       simp only [hk] at he
       exact diffAny_sec_J hw hkk f ih pend st st' xa xb n oa ob hoa hob hkind hf hp hj (by rw [hk]; exact he)
 
